@@ -42,6 +42,8 @@ pub struct StaticSoundData {
 	and [`StaticSoundData::frame_at_index`] will all behave as if
 	this [`StaticSoundData`] only contained the specified portion of
 	audio.
+
+	A slice whose end is before its start is empty.
 	*/
 	pub slice: Option<(usize, usize)>,
 }
@@ -424,7 +426,8 @@ impl Debug for FramesDebug {
 
 pub(crate) fn num_frames(frames: &[Frame], slice: Option<(usize, usize)>) -> usize {
 	if let Some((start, end)) = slice {
-		end - start
+		// an inverted slice (end before start) is empty
+		end.saturating_sub(start)
 	} else {
 		frames.len()
 	}
